@@ -228,6 +228,56 @@ def check_defaults(ctx) -> None:
             ctx.ok("C11.defaults", fn, None, "reader does not hand module-level default objects to instances")
 
 
+def _check_bounds_written(ctx, rt: FuncInfo) -> None:
+    """_reaction_to_dict evaluated over a stand-in reaction: a non-finite bound is written as a string (JSON has no
+    infinity and the writers use allow_nan=False), a finite one as the number itself; both keys are written."""
+    from ..absint import EvalRaise as _ER, Unknown as _U
+    from ..interp import Interp
+
+    class _M:
+        def __init__(self, mid):
+            self.id = mid
+
+        def __str__(self):
+            return self.id
+
+    class _R:
+        pass
+
+    problems = []
+    n = 0
+    for lb, ub in ((float("-inf"), float("inf")), (-5.0, float("inf")), (float("-inf"), 0.0), (-1000.0, 1000.0), (0, 7), (float("nan"), 3.0)):
+        r = _R()
+        r.id, r.name, r.lower_bound, r.upper_bound, r.gene_reaction_rule = "R1", "reaction one", lb, ub, "g1 and g2"
+        a, b = _M("a_c"), _M("b_c")
+        r.metabolites = {b: 1.0, a: -2.0}
+        r.objective_coefficient, r.subsystem, r.notes, r.annotation = 0, "", {}, {}
+        it = Interp(ctx.prog, (_M, _R), ["cobra.io.dict._fix_type", "cobra.io.dict._update_optional"], {}, globals_={})
+        try:
+            out = it.call(rt, [r], {})
+        except _U as exc:
+            raise AnalysisError(f"C11.fixtype: _reaction_to_dict cannot be evaluated: {exc}")
+        except _ER as exc:
+            problems.append(f"bounds ({lb}, {ub}): raises {exc.exc_type}")
+            continue
+        n += 1
+        if not isinstance(out, dict):
+            raise AnalysisError("C11.fixtype: _reaction_to_dict did not return a dict")
+        for key, val in (("lower_bound", lb), ("upper_bound", ub)):
+            got = out.get(key, "<missing>")
+            finite = not (isinstance(val, float) and (val != val or val in (float("inf"), float("-inf"))))
+            if finite and not (isinstance(got, (int, float)) and not isinstance(got, bool) and got == val):
+                problems.append(f"{key}={val!r} is written as {got!r}")
+            if not finite and not (isinstance(got, str) and got.lower().lstrip("+-") in ("inf", "nan", "infinity") and (got.startswith("-") == (val == float("-inf")))):
+                problems.append(f"the non-finite {key}={val!r} is written as {got!r}, not as a string: JSON export with allow_nan=False fails for it")
+        if out.get("metabolites") != {"a_c": -2.0, "b_c": 1.0}:
+            problems.append(f"the stoichiometry is written as {out.get('metabolites')!r}")
+    if problems:
+        ctx.bad("C11.fixtype", rt, "infinite bounds", "; ".join(problems[:2]))
+    else:
+        ctx.ok("C11.fixtype", rt, "infinite bounds", f"{n} bound pairs: non-finite bounds are written as strings, finite ones as numbers; stoichiometry keyed by metabolite id")
+
+
 def check_fixtype(ctx) -> None:
     prog = ctx.prog
     fn = prog.func(MOD, "_fix_type")
@@ -272,11 +322,7 @@ def check_fixtype(ctx) -> None:
     else:
         ctx.ok("C11.fixtype", fn, "_fix_type value table", f"{len(cases)} representative values: only the top-level value is converted; nested None survives")
     rt = prog.func(MOD, "_reaction_to_dict")
-    src = " ".join(ast.unparse(rt.node).split())
-    if "np.isinf(reaction.lower_bound)" in src and "np.isinf(reaction.upper_bound)" in src and src.count("str(_fix_type") >= 2:
-        ctx.ok("C11.fixtype", rt, "infinite bounds", "infinite bounds are written as strings (JSON has no infinity)")
-    else:
-        ctx.bad("C11.fixtype", rt, rt.node, "infinite bounds are not written as strings: JSON export with allow_nan=False fails for them")
+    _check_bounds_written(ctx, rt)
     for mod, fname in (("cobra.io.json", "to_json"), ("cobra.io.json", "save_json_model")):
         f = prog.func(mod, fname)
         s2 = " ".join(ast.unparse(f.node).split())
